@@ -36,9 +36,10 @@ PROPS = {
         rule=("payload lengths enumerated (quick: boundary set 0..40, 250..260, 1000..1050, 2040..2060, 3070..3075, 4090..4097; thorough: 0..4097) x 6 reader modes, "
               "plus rapid sequences of 1..6 messages with lengths up to 70000, random secrets and chunkings. Non-trivial: at least one payload longer than 0; distinct by (secret, message list)."),
         assumptions=["source readers follow the io.Reader contract and never return (0,nil)"],
-        essential_classes=["len%1024=0/onebyte", "len%1024=0/whole", "len>1024/chunks", "len=0/whole", "multi-message", "len%1024=1/with-eof"],
+        essential_classes=["len%1024=0/onebyte", "len%1024=0/whole", "len>1024/chunks", "len=0/whole", "multi-message", "len%1024=1/with-eof", "high-counter"],
         exhaustive=False,
         jobs=[
+            dict(test="TestC06HighCounters", kind="plain"),
             dict(test="TestC06Exhaustive", kind="plain", shards={Q: 4, T: 16}),
             dict(test="TestC06Prop", kind="rapid", checks={Q: 400, T: 12000}, shards=12),
         ],
@@ -55,8 +56,9 @@ PROPS = {
               "{1,2,17} (quick) / {1,2,17,1024,1030} (thorough) x 2 pre-rolls x 2 directions + every permutation, deletion subset and single duplication of <=4 (quick) / <=5 (thorough) frames. "
               "Non-trivial: the altered stream differs from the original. Distinct by full scenario hash."),
         assumptions=["the receiver stops reading after the first error (hc's Connection closes the socket)"],
-        essential_classes=["flip:length", "flip:body", "flip:tag", "truncate", "delete", "dup", "swap", "replay-old", "reflect", "splice", "outcome:detected", "outcome:prefix-at-frame-boundary", "counters>0", "sender:hc", "outcome:conn:detected", "outcome:conn:prefix-at-frame-boundary"],
+        essential_classes=["flip:length", "flip:body", "flip:tag", "truncate", "delete", "dup", "swap", "replay-old", "reflect", "splice", "outcome:detected", "outcome:prefix-at-frame-boundary", "counters>0", "sender:hc", "outcome:conn:detected", "outcome:conn:prefix-at-frame-boundary", "insert-empty-frame", "exhaustive-forged-empty-frame", "high-counter:replay-from-low"],
         jobs=[
+            dict(test="TestC05HighCounters", kind="plain"),
             dict(test="TestC05BitFlips", kind="plain", shards={Q: 2, T: 16}),
             dict(test="TestC05FramePerms", kind="plain", shards={Q: 2, T: 4}),
             dict(test="TestC05Prop", kind="rapid", checks={Q: 1500, T: 40000}, shards=10),
@@ -75,6 +77,7 @@ PROPS = {
         essential_classes=["kind:int64", "kind:float32", "kind:inline-list", "kind:tagged-list", "kind:nested", "tagged-element>255", "decode:mutated", "decode:raw", "type:VideoStreamConfiguration", "regress"],
         jobs=[
             dict(test="TestC17Regress", kind="plain"),
+            dict(test="TestC17Concurrent", kind="plain"),
             dict(test="TestC17Prop", kind="rapid", checks={Q: 1500, T: 60000}, shards=10),
             dict(test="TestC17Decode", kind="rapid", checks={Q: 2500, T: 100000}, shards=6),
             dict(test="FuzzC17Decode", kind="fuzz", tiers=[T], fuzztime={T: 60}),
@@ -135,7 +138,7 @@ PROPS = {
         rule=("matrix: constructors x 14 permission sets x {remote,local} x 3-4 (quick) / 12-13 (thorough) values; rapid: random constructor, random subset of {pr,pw,ev,hd,wr}, optional prior application value, typed or arbitrary JSON value. "
               "Non-trivial: the permission under test is absent (no pr, or no pw on the remote path). Distinct by (constructor, perms, path, values)."),
         assumptions=["a characteristic whose permissions are overridden to exclude read starts without a value"],
-        essential_classes=["missing:pw/remote", "missing:pr/remote", "missing:pr/local", "all-perms/remote", "http:put/missing-pw", "http:get/missing-pr", "http:subscribe/missing-ev", "http:event/missing-ev", "http:event/delivered"],
+        essential_classes=["missing:pw/remote", "missing:pr/remote", "missing:pr/local", "all-perms/remote", "http:put/missing-pw", "http:get/missing-pr", "http:subscribe/missing-ev", "http:event/missing-ev", "http:event/delivered", "http:event/after-rejected-subscription"],
         jobs=[
             dict(test="TestC11Matrix", kind="plain", shards={Q: 4, T: 8}),
             dict(test="TestC11Prop", kind="rapid", checks={Q: 1000, T: 40000}, shards=8),
@@ -150,7 +153,7 @@ PROPS = {
         level_note="Trusted: the JSON shape checker. Accessories are completed before they are added to a container (as the library's own transport does). The wire-level fetch of /accessories is covered by C09.",
         rule=("rapid compositions; non-trivial: at least 2 accessories and at least 1 extra service. Distinct by composition. Plus one enumerated case per accessory constructor and per service constructor."),
         assumptions=["an accessory is added to exactly one container, after all its services have been added"],
-        essential_classes=["ids:mixed", "ids:explicit", "ids:auto", "explicit-id-collision", "linked-services", "accessories>=20", "every-accessory-constructor", "every-service-constructor"],
+        essential_classes=["ids:mixed", "ids:explicit", "ids:auto", "explicit-id-collision", "linked-services", "accessories>=20", "every-accessory-constructor", "every-service-constructor", "service-without-characteristics", "custom-service"],
         jobs=[
             dict(test="TestC14EveryConstructor", kind="plain"),
             dict(test="TestC14Prop", kind="rapid", checks={Q: 300, T: 10000}, shards=16),
@@ -199,10 +202,11 @@ PROPS = {
         rule=("rapid cases: op in {Storage.Set, Database.SaveEntity}, key from hc's own keys, old value absent/0..4096 bytes, new value 0..4096 bytes, 0..3 other keys; every crash point of each case is executed. "
               "evaluations counts cases; coverage.extra.crash_points_explored counts child executions. Non-trivial: old value present and of a different length than the new one. Distinct by (op, key, old, new)."),
         assumptions=["a crash is a process kill between two file-system calls"],
-        essential_classes=["op:set", "op:save-entity", "old:absent", "new-shorter", "new-longer", "regress"],
+        essential_classes=["op:set", "op:save-entity", "op:transport-start", "transport:structure-changed", "old:absent", "new-shorter", "new-longer", "regress"],
         jobs=[
             dict(test="TestC19Regress", kind="plain"),
-            dict(test="TestC19Prop", kind="rapid", checks={Q: 12, T: 300}, shards=16),
+            dict(test="TestC19Prop", kind="rapid", checks={Q: 12, T: 300}, shards=12),
+            dict(test="TestC19Transport", kind="rapid", checks={Q: 3, T: 40}, shards=4),
         ],
     ),
     "C04": dict(
@@ -262,7 +266,7 @@ PROPS = {
         rule=("rapid cases: state from {fresh, setup-after-M2, setup-after-M4, setup-completed, verify-after-M2, verified, verified+setup-after-M2} x 1..3 hostile requests from 10 generator families. "
               "Non-trivial: hostile request delivered in a non-initial protocol state. Distinct by (state, seed, requests)."),
         assumptions=["requests reach the handlers through net/http (which bounds header sizes and recovers nothing for us at handler level)"],
-        essential_classes=["state:setup-after-M4", "state:verify-after-M2", "state:verified", "kind:tlv:short-encrypted", "kind:tlv:wrong-tag", "kind:tlv:sealed-garbage", "kind:json", "kind:query", "endpoint:/pairings", "endpoint:/resource", "regress", "wire-state:verified", "wire-state:setup-after-M4"],
+        essential_classes=["state:setup-after-M4", "state:verify-after-M2", "state:verified", "kind:tlv:short-encrypted", "kind:tlv:wrong-tag", "kind:tlv:sealed-garbage", "kind:tlv:odd-ltpk", "kind:json", "kind:query", "endpoint:/pairings", "endpoint:/resource", "regress", "wire-state:verified", "wire-state:setup-after-M4"],
         jobs=[
             dict(test="TestC13Regress", kind="plain"),
             dict(test="TestC13Prop", kind="rapid", checks={Q: 150, T: 5000}, shards=12),
@@ -307,8 +311,9 @@ PROPS = {
         level_note="Trusted: refctl's event reader; the fact that hc writes notifications synchronously inside SetValue / the PUT handler, which makes the synchronising request sufficient without sleeps. ProgrammableSwitchEvent (specified to notify on equal values) is not part of the test bed. Event entries are counted, not messages (batching is allowed).",
         rule=("rapid state machine (about 30 actions) over 5 action kinds, 2..4 controllers, 7 characteristics. Non-trivial: a history with a change while at least 2 connections are subscribed and a change after an unsubscribe or a close. Distinct by history."),
         assumptions=["values written stay inside bounds so that the model needs no clamping"],
-        essential_classes=["event-delivered", "change-with>=2-subscribers", "change-after-unsubscribe-or-close", "subscribe-non-ev-rejected", "same-value-update", "originator-subscribed", "reconnect", "write-with-ev", "close-with-subscriptions"],
+        essential_classes=["event-delivered", "change-with>=2-subscribers", "change-after-unsubscribe-or-close", "subscribe-non-ev-rejected", "same-value-update", "originator-subscribed", "reconnect", "write-with-ev", "close-with-subscriptions", "write-beyond-bounds", "same-iid-on-two-accessories-asymmetric"],
         jobs=[
+            dict(test="TestC10Regress", kind="plain"),
             dict(test="TestC10Prop", kind="rapid", checks={Q: 40, T: 2500}, shards=16, steps=60),
         ],
     ),
